@@ -25,6 +25,8 @@ type Item struct {
 	N  *int64 // NULL in every third row
 	// KeyCopy: a column whose name has two words (key_copy), equal to the key
 	KeyCopy int64
+	// Rank: a column whose name is an SQL keyword (order), equal to v
+	Rank int64 `gorm:"column:order"`
 }
 
 // CK: a model with a composite primary key (single-record finders whose destination carries a key)
@@ -309,7 +311,7 @@ func run(db *gorm.DB, in Input) (o Obs) {
 	if len(in.Tbl) > 0 {
 		items := make([]Item, len(in.Tbl))
 		for i, r := range in.Tbl {
-			items[i] = Item{ID: r.ID, V: r.V, KeyCopy: r.ID}
+			items[i] = Item{ID: r.ID, V: r.V, KeyCopy: r.ID, Rank: r.V}
 			if r.ID%3 != 0 {
 				n := r.ID
 				items[i].N = &n
@@ -554,11 +556,66 @@ func run(db *gorm.DB, in Input) (o Obs) {
 			}
 		}
 	}
+	moreShapes(db, in, &o)
 	genericLimit(in, &o)
 	selectedColumns(db, in, &o)
 	compositeKeys(db, in, &o)
 	inlineAndSiblings(db, in, &o)
 	return o
+}
+
+// moreShapes: result columns renamed by MapColumns reach every destination kind; Pluck of a column
+// whose name is a keyword through a Table-only chain; Omit on a chain whose table is not the model's
+// default one (an alias). Complaints go to Errs.
+func moreShapes(db *gorm.DB, in Input, o *Obs) {
+	// MapColumns: v is delivered as key_copy's neighbour "vv" in maps as in structs
+	{
+		type vv struct {
+			ID int64
+			VV int64 `gorm:"column:vv"`
+		}
+		var ss []vv
+		var ms []map[string]interface{}
+		e1 := chain(db, in).Model(&Item{}).MapColumns(map[string]string{"v": "vv"}).Scan(&ss).Error
+		e2 := chain(db, in).Model(&Item{}).MapColumns(map[string]string{"v": "vv"}).Find(&ms).Error
+		if e1 != nil || e2 != nil {
+			o.Errs = append(o.Errs, fmt.Sprintf("MapColumns: %v / %v", e1, e2))
+		} else {
+			a, b := []Row{}, []Row{}
+			for _, x := range ss {
+				a = append(a, Row{x.ID, x.VV})
+			}
+			for _, m := range ms {
+				if _, ok := m["v"]; ok {
+					o.Errs = append(o.Errs, "MapColumns: a map row still has the unmapped key v")
+					break
+				}
+				b = append(b, Row{asInt(m["id"]), asInt(m["vv"])})
+			}
+			if fmt.Sprint(a) != fmt.Sprint(o.Find) || fmt.Sprint(b) != fmt.Sprint(o.Find) {
+				o.Errs = append(o.Errs, fmt.Sprintf("MapColumns: structs %v, maps %v, Find %v", a, b, o.Find))
+			}
+		}
+	}
+	if in.Cond.Kind == "" || in.Cond.Kind == "all" {
+		if len(in.Lops) == 0 && (in.Ord == "none" || in.Ord == "") {
+			// a Table-only chain (no Model): Pluck of the keyword-named column
+			var viaTable, viaModel []int64
+			e1 := db.Table("items").Order("id").Pluck("order", &viaTable).Error
+			e2 := db.Model(&Item{}).Order("id").Pluck("order", &viaModel).Error
+			if e1 != nil || e2 != nil || fmt.Sprint(viaTable) != fmt.Sprint(viaModel) {
+				o.Errs = append(o.Errs, fmt.Sprintf("Pluck(\"order\"): through Table %v (%v), through Model %v (%v)", viaTable, e1, viaModel, e2))
+			}
+			// Omit on a chain whose table is an alias of the model's table
+			var viaAlias []Item
+			var n int64
+			e3 := db.Table("items as i").Omit("n").Order("id").Find(&viaAlias).Error
+			e4 := db.Table("items as i").Omit("n").Model(&Item{}).Count(&n).Error
+			if e3 != nil || e4 != nil || int64(len(viaAlias)) != n || len(viaAlias) != len(in.Tbl) {
+				o.Errs = append(o.Errs, fmt.Sprintf("Omit on an aliased table: Find %d rows (%v), Count %d (%v), table %d", len(viaAlias), e3, n, e4, len(in.Tbl)))
+			}
+		}
+	}
 }
 
 // genericLimit: the same Find through gorm's generic LIMIT / OFFSET rendering. A statement with an
